@@ -222,20 +222,24 @@ structure Res where
   picks : List Nat
   finished : Bool     -- the task list became empty (false: the choice stream ran out)
 
+/-- the scheduler's bookkeeping after `execute_run` on `r` (executor.py:143-154,
+163-175, 184-197): a run whose build failed is dropped; a completed run is
+removed, and if its executable is missing the others are filtered; an
+uncompleted run stays (batch, random) or moves to the end (round-robin) -/
+def nextOf (cf : Conf) (k : Kind) (tasks : List Nat) (r : Nat) (a : StepRes) : G × List Nat :=
+  if a.failedBuilding then (a.g, tasks.erase r)
+  else if a.completed then
+    if (a.g.rs r).t.exeMissing then withoutMissing cf r a.g (tasks.erase r) else (a.g, tasks.erase r)
+  else (a.g, requeue k tasks r)
+
 /-- the scheduler loop; one element of the choice stream per `execute_run` -/
 def seqLoop (cf : Conf) (k : Kind) : G → List Nat → List Nat → Res
   | g, [], _ => { g := g, trace := [], picks := [], finished := true }
   | g, _ :: _, [] => { g := g, trace := [], picks := [], finished := false }
   | g, t :: ts, c :: cs =>
-    let tasks := t :: ts
-    let r := pick k tasks c
+    let r := pick k (t :: ts) c
     let a := execRun cf g r
-    let rest := tasks.erase r
-    let next : G × List Nat :=
-      if a.failedBuilding then (a.g, rest)
-      else if a.completed then
-        if (a.g.rs r).t.exeMissing then withoutMissing cf r a.g rest else (a.g, rest)
-      else (a.g, requeue k tasks r)
+    let next := nextOf cf k (t :: ts) r a
     let b := seqLoop cf k next.1 next.2 cs
     { g := b.g, trace := a.evs.map (fun e => (r, e)) ++ b.trace, picks := r :: b.picks, finished := b.finished }
 
@@ -246,6 +250,24 @@ def uncompleted (cf : Conf) (g : G) (order : List Nat) : List Nat :=
 /-- a sequential session: runs in the order the run set is iterated -/
 def session (cf : Conf) (k : Kind) (g : G) (order : List Nat) (choices : List Nat) : Res :=
   seqLoop cf k g (uncompleted cf g order) choices
+
+/-! ### the shared-executable clause of C04 as a predicate on a session -/
+
+def isStartOf (q : Nat) (p : Nat × Ev) : Bool :=
+  p.1 == q && (match p.2 with | .start _ => true | _ => false)
+
+/-- the part of the trace after the last start of run `r` -/
+def afterLastStart (r : Nat) (tr : List (Nat × Ev)) : List (Nat × Ev) :=
+  (tr.reverse.takeWhile (fun p => !isStartOf r p)).reverse
+
+/-- "exit status 127 abandons at once … every other run using the same
+executable": when run `r` ended with a missing executable (its last start
+returned 127), no other run with the same executable is started afterwards -/
+def sharedAbandon (cf : Conf) (res : Res) (runs : List Nat) : Bool :=
+  runs.all (fun r => runs.all (fun q =>
+    if r ≠ q ∧ (cf.run r).exe = (cf.run q).exe ∧ (res.g.rs r).t.exeMissing = true then
+      !(afterLastStart r res.trace).any (isStartOf q)
+    else true))
 
 /-! ### session result and exit status -/
 
